@@ -30,7 +30,7 @@ RULE = ("histories = one Model; top-level creation/removal/reference keeping of 
         "AgentSets in arbitrary order, then 1-4 activations (do/shuffle_do/map by method name or callable, on "
         "model.agents, agents_by_type[c] or a program-made set, or through groupby(...).do/map) whose per-agent scripts "
         "do nothing / remove self / remove an earlier or later or dead agent (reference kept or not) / create agents / "
-        "drop or take references; the enumerator sweeps ALL one-act scripts over sets of size <= 3 (4 thorough); "
+        "drop or take references; ALL one-act scripts over sets of size <= 3 (4 thorough, and 4 in the enumerator) are run first; "
         "non-trivial = an activation that called >= 2 agents; distinct = SHA1 of the history")
 TRUSTED_BASE = [
     "Coq 8.16.1 kernel (coqc); vm_compute used for the non-vacuity examples and for evaluating the model in the correspondence",
@@ -142,7 +142,7 @@ def _rand_case(rng, big=False):
         kwargs = [rng.randint(0, 9) for _ in range(rng.choice([0, 0, 1, 2]))]
         kind = rng.choice(KINDS)
         if rng.random() < 0.2:
-            ops.append(["group", kind, rng.choice(["do", "map"]), rng.choice(["attr", "callable"]), sref,
+            ops.append(["group", kind, rng.choice(["do", "map", "do-callable", "map-callable"]), rng.choice(["attr", "callable"]), sref,
                         rng.choice([1, 2, 2, 3]), script, args, kwargs])
         else:
             ops.append(["activate", kind, rng.choice(["name", "callable"]), sref, script, args, kwargs])
@@ -176,10 +176,11 @@ def _enum_scripts(n):
 def _exhaustive(nmax, kinds, user_orders):
     for n in range(1, nmax + 1):
         setup = [["act", ["create", i % 2, 1, False]] for i in range(n)]
-        for sc in _enum_scripts(n):
-            for kind in kinds:
+        for j, sc in enumerate(_enum_scripts(n)):
+            # every kind for n <= 3; for n = 4 (10^4 scripts) the kinds take turns
+            for kind in (kinds if n <= 3 else [kinds[j % len(kinds)]]):
                 yield {"ops": setup + [["activate", kind, "name" if len(sc) % 2 else "callable", ["all"], sc, [], []]]}
-            if user_orders and n >= 2:
+            if user_orders and n >= 2 and (n <= 3 or j % 3 == 0):
                 # a program-made set in reverse order: removal does not take the agent out of it
                 rev = list(range(n, 0, -1))
                 yield {"ops": setup + [["newset", rev], ["activate", kinds[len(sc) % len(kinds)], "callable", ["user", 0], sc, [1], [2]]]}
@@ -188,8 +189,8 @@ def _exhaustive(nmax, kinds, user_orders):
 def gen_cases(rng, tier):
     cases = []
     # every one-act script over sets of size <= 2 (3 thorough), all kinds
-    cases += list(_exhaustive(2 if tier == "quick" else 3, KINDS, True))
-    n = 700 if tier == "quick" else 12000
+    cases += list(_exhaustive(3 if tier == "quick" else 4, KINDS, True))
+    n = 1500 if tier == "quick" else 15000
     for i in range(n):
         cases.append(_rand_case(rng, big=(i % 5 == 0)))
     return cases
@@ -197,8 +198,10 @@ def gen_cases(rng, tier):
 
 def enumerate_cases(tier, broken=False):
     """ALL one-act scripts {nop, remove self (kept or not), remove any other member (kept or not), create 1}
-    over model.agents of size <= 3 (4 thorough), for do, shuffle_do and map, plus a reversed program-made set."""
-    yield from _exhaustive(4 if tier == "thorough" else 3, KINDS, True)
+    over model.agents of size <= 4, for do, shuffle_do and map, plus a reversed program-made set."""
+    if tier == "thorough" and not broken:
+        return  # gen_cases already ran (and compared with the model) every script over sets of size <= 4
+    yield from _exhaustive(4, KINDS, True)
 
 
 # ------------------------------------------------------------------ implementation side
@@ -421,7 +424,6 @@ def run_impl(case):
         env["ctx"]["cur"] = None
         env["ctx"]["rec"] = None
         gc.enable()
-        gc.collect()
 
 
 def _args_ok(calls, args, kwargs, token):
@@ -550,7 +552,12 @@ def _run_impl(env, case):
                         failures.append({"key": "C04/groupby/groups", "op": opi,
                                          "what": f"groupby on members {snap} by id mod {m} gave {got_groups}; required (first-seen key order, set order inside) {want_groups}"})
                     rec = ctx["rec"] = []
-                    res = getattr(gb, outer)(akind, "act", *args, tok=token, **kw)
+                    if outer.endswith("-callable"):
+                        inner = (lambda agent, *a, **k: run.call(agent, a, k))
+                        res = getattr(gb, outer[:-9])(lambda grp, *a, **k: getattr(grp, akind)(inner, *a, **k), *args, tok=token, **kw)
+                    else:
+                        res = getattr(gb, outer)(akind, "act", *args, tok=token, **kw)
+                    outer = outer.split("-")[0]
                     ctx["rec"] = None
                     calls = run.calls
                     run.script = {}
@@ -620,6 +627,8 @@ def _run_impl(env, case):
                              "what": f"{op} raised {type(e).__name__}: {e}"})
         ops_for_model.append(mop)
     ctx["cur"] = None
+    # Agent._ids is a class-level dict keyed by model: forget this model so that it can be freed
+    env["mesa"].Agent._ids.pop(run.model, None)
     return {"obs": obs, "failures": failures, "ops_for_model": ops_for_model}
 
 
